@@ -1,3 +1,304 @@
 import NdnVerif.Driver.Common
--- stub: replaced by the C20 model driver
-def main : IO Unit := IO.println "DONE lines=0 histories=0 diffs=0 specs=0 skipped=0"
+import NdnVerif.C20.Model
+import NdnVerif.C20.Pinned
+import NdnVerif.C20.Spec
+open Ndn Ndn.Driver Ndn.C20
+
+/-
+  C20 driver.  Ops (every op but `new` ends with `@<t>`, the absolute virtual instant in µs since
+  the start of the history; the harness sleeps until then, timers fire on the way):
+
+    express <label> <finalName> <cbp 0|1> <life µs | ->        res: ok | err
+    data <name> <digest hex> <variant>                          res: ok
+    nack <name>                                                 res: ok
+    attach <hid> <prefix>                                       res: ok | dup
+    detach <prefix>                                             res: ok | err
+    interest <rlabel> <name> <life ms | -> <token hex | ->      res: h<hid>:<deadline> | none
+    reply <rlabel>                                              res: sent | late | skip
+    tick | end                                                  res: ok
+
+  output:  pre=<label@t,...|->  res=<...>  cb=<label:D:<name>|label:N|label:T,...|->
+  (`pre` = timeouts delivered while the clock advanced to @t, `cb` = callbacks made by the op).
+-/
+
+structure SInt where
+  label : String
+  i : Spec.Int
+  resolved : Bool := false
+
+structure SpecSt where
+  ints : List SInt := []
+  fib : List (Name × Nat) := []
+  rx : List (String × Nat) := []
+
+structure DSt where
+  pinned : Bool
+  m : St := {}
+  labels : List (Nat × String) := []      -- model id -> harness label
+  rxl : List (String × Nat) := []         -- harness rx label -> model rx index
+  sp : SpecSt := {}
+
+def stepM (pinned : Bool) (s : St) (op : Op) : St × Out := if pinned then stepPinned s op else step s op
+
+/-- the armed timer with the least instant ≤ t (lowest index on ties) -/
+def nextDue (ts : List Tmr) (t : Nat) : Option (Nat × Nat) :=
+  (ts.zipIdx).foldl (fun best (tm, k) =>
+    if tm.st = .armed ∧ tm.fire ≤ t then
+      match best with
+      | none => some (k, tm.fire)
+      | some (_, f) => if tm.fire < f then some (k, tm.fire) else best
+    else best) none
+
+/-- let the clock run to `t`: due timers start and run one after the other, each at its instant -/
+def advance (pinned : Bool) : Nat → St → Nat → List Cb → St × List Cb
+  | 0, s, t, acc => ((stepM pinned s (.setTime t)).1, acc)
+  | fuel + 1, s, t, acc =>
+    match nextDue s.timers t with
+    | none => ((stepM pinned s (.setTime t)).1, acc)
+    | some (k, f) =>
+      let s1 := (stepM pinned s (.setTime f)).1
+      let s2 := (stepM pinned s1 (.timerStart k)).1
+      let (s3, o) := stepM pinned s2 (.timerRun k)
+      let cbs := match o with | .cbs l => l | _ => []
+      advance pinned fuel s3 t (acc ++ cbs)
+
+def labelOf (d : DSt) (id : Nat) : String :=
+  match d.labels.find? (·.1 == id) with
+  | some (_, l) => l
+  | none => s!"?{id}"
+
+def insertSorted (le : α → α → Bool) (x : α) : List α → List α
+  | [] => [x]
+  | y :: ys => if le x y then x :: y :: ys else y :: insertSorted le x ys
+def sortBy (le : α → α → Bool) (l : List α) : List α := l.foldr (insertSorted le) []
+
+def joinOrDash (l : List String) : String := if l.isEmpty then "-" else ",".intercalate l
+
+def fmtPre (d : DSt) (cbs : List Cb) : String :=
+  let l := sortBy (fun a b => a.t < b.t || (a.t == b.t && a.id ≤ b.id)) cbs
+  joinOrDash (l.map fun c => s!"{labelOf d c.id}@{c.t}")
+
+def fmtCb (d : DSt) (cbs : List Cb) : String :=
+  let l := sortBy (fun a b => a.id ≤ b.id) cbs
+  joinOrDash (l.map fun c =>
+    match c.kind with
+    | .data n _ => s!"{labelOf d c.id}:D:{Name.toText n}"
+    | .nack => s!"{labelOf d c.id}:N"
+    | .timeout => s!"{labelOf d c.id}:T")
+
+/-- split "k=v k=v k=v" of the implementation's output -/
+def field (got : String) (k : String) : String :=
+  match (got.splitOn " ").find? (·.startsWith (k ++ "=")) with
+  | some f => (f.drop (k.length + 1)).toString
+  | none => ""
+
+def listOf (s : String) : List String := if s == "-" || s == "" then [] else s.splitOn ","
+
+def parseTime (tok : String) : Option Nat := if tok.startsWith "@" then (tok.drop 1).toString.toNat? else none
+
+def optNat (s : String) : Option (Option Nat) := if s == "-" then some none else s.toNat?.map some
+
+/-- split a final name into (node name, digest) like Express does -/
+def splitDigest (final : Name) : Name × Option Bytes :=
+  match final.getLast? with
+  | some last => if last.typ = tImplicitDigest then (final.dropLast, some last.val) else (final, none)
+  | none => (final, none)
+
+def nested (a b : Name) : Bool := a.isPrefixOf b || b.isPrefixOf a
+
+/-- SPEC: the timeouts reported before the op (pre) -/
+def specPre (sp : SpecSt) (pre : List String) : SpecSt × List SpecFail := Id.run do
+  let mut sp := sp
+  let mut fails : List SpecFail := []
+  for e in pre do
+    match e.splitOn "@" with
+    | [l, ts] =>
+      let t := ts.toNat?.getD 0
+      match sp.ints.find? (·.label == l) with
+      | none => fails := fails ++ [⟨"at-most-once", "unknown", s!"timeout callback for {l}, which is not pending"⟩]
+      | some si =>
+        if si.resolved then
+          fails := fails ++ [⟨"at-most-once", "timeout-after-resolution", s!"{l} got a second callback (timeout at {t})"⟩]
+        if !Spec.timeoutOk si.i t then
+          fails := fails ++ [⟨"timeout-not-early", "early", s!"{l} expressed at {si.i.t} with lifetime {si.i.life} timed out at {t}"⟩]
+        sp := { sp with ints := sp.ints.map fun x => if x.label == l then { x with resolved := true } else x }
+    | _ => fails := fails ++ [⟨"protocol", "pre", s!"bad pre event {e}"⟩]
+  return (sp, fails)
+
+/-- SPEC: callbacks made by a data / nack op -/
+def specCb (sp : SpecSt) (cb : List String) (isData : Option (Name × Bytes)) (isNack : Option Name) :
+    SpecSt × List SpecFail := Id.run do
+  let mut sp := sp
+  let mut fails : List SpecFail := []
+  for e in cb do
+    match e.splitOn ":" with
+    | l :: kind :: rest =>
+      match sp.ints.find? (·.label == l) with
+      | none => fails := fails ++ [⟨"at-most-once", "unknown", s!"callback for {l}, which was never expressed"⟩]
+      | some si =>
+        if si.resolved then
+          fails := fails ++ [⟨"at-most-once", s!"second-{kind}", s!"{l} got a second callback ({kind})"⟩]
+        if kind == "D" then
+          let nmTxt := ":".intercalate rest
+          match isData, Name.ofText nmTxt with
+          | some (dn, dg), some cn =>
+            if cn != dn then
+              fails := fails ++ [⟨"data-satisfies", "other-data", s!"{l} was given Data {nmTxt} while Data {Name.toText dn} arrived"⟩]
+            if !Spec.satisfies si.i cn dg then
+              fails := fails ++ [⟨"data-satisfies", (if si.i.dig.isSome then "digest" else if si.i.cbp then "prefix" else "exact"),
+                s!"{l} ({Name.toText si.i.final} cbp={si.i.cbp}) resolved with Data {nmTxt} that does not satisfy it"⟩]
+          | _, _ => fails := fails ++ [⟨"data-satisfies", "no-data", s!"{l} resolved with Data but no Data arrived"⟩]
+        else if kind == "N" then
+          match isNack with
+          | some nn =>
+            if nn != si.i.final then
+              fails := fails ++ [⟨"nack-name", "other-name", s!"{l} ({Name.toText si.i.final}) resolved by a Nack for {Name.toText nn}"⟩]
+          | none => fails := fails ++ [⟨"nack-name", "no-nack", s!"{l} resolved with Nack but no Nack arrived"⟩]
+        else
+          fails := fails ++ [⟨"protocol", "cb", s!"unexpected callback kind {kind} in an op"⟩]
+        sp := { sp with ints := sp.ints.map fun x => if x.label == l then { x with resolved := true } else x }
+    | _ => fails := fails ++ [⟨"protocol", "cb", s!"bad cb event {e}"⟩]
+  return (sp, fails)
+
+def bad (d : DSt) : StepResult DSt := { st := d, expected := some "bad-op" }
+
+def stepC20 (d : DSt) (op : String) (got : String) : StepResult DSt :=
+  let toks := op.splitOn " "
+  match toks with
+  | ["new"] => { st := { pinned := d.pinned }, expected := some "ok" }
+  | _ =>
+    match toks.getLast? >>= parseTime with
+    | none => bad d
+    | some t =>
+      let args := toks.dropLast
+      let crash : List SpecFail := if isCrash got then [⟨"no-panic", "crash", s!"the engine crashed: {got}"⟩] else []
+      -- 1. let the clock run (model)
+      let (m1, preCbs) := advance d.pinned (d.m.timers.length + 1) d.m t []
+      let preTxt := fmtPre d preCbs
+      -- SPEC on the implementation's pre events
+      let gotPre := listOf (field got "pre")
+      let gotRes := field got "res"
+      let gotCb := listOf (field got "cb")
+      let (sp1, f1) := if isCrash got then (d.sp, []) else specPre d.sp gotPre
+      let d1 := { d with m := m1, sp := sp1 }
+      let mk (d2 : DSt) (res : String) (cbs : List Cb) (fails : List SpecFail) (cov : List String) (nt : Bool := false) :
+          StepResult DSt :=
+        { st := d2, expected := some s!"pre={preTxt} res={res} cb={fmtCb d2 cbs}",
+          spec := crash ++ f1 ++ fails,
+          cov := cov ++ (if preCbs.isEmpty then [] else ["timeout"]), nontrivial := nt }
+      match args with
+      | ["express", label, nameT, cbpT, lifeT] =>
+        match Name.ofText nameT, optNat lifeT with
+        | some final, some life =>
+          let cbp := cbpT == "1"
+          let (m2, o) := stepM d.pinned m1 (.express final cbp life)
+          match o with
+          | .expressed id =>
+            let (node, dig) := splitDigest final
+            let spInts := if gotRes == "ok" then
+                sp1.ints ++ [{ label := label, i := ⟨node, final, cbp, dig, t, life.getD defaultLife⟩ }]
+              else sp1.ints
+            mk { d1 with m := m2, labels := d1.labels ++ [(id, label)], sp := { sp1 with ints := spInts } } "ok" [] []
+              ["express", if dig.isSome then "express-digest" else "express-plain", if cbp then "express-cbp" else "express-exact",
+               if life.isNone then "express-default-life" else "express-life"]
+          | _ => mk { d1 with m := m2 } "err" [] [] ["express-err"]
+        | _, _ => bad d
+      | ["data", nameT, digT, _variant] =>
+        match Name.ofText nameT, bytesOfHex digT with
+        | some name, some dig =>
+          let (m2, o) := stepM d.pinned m1 (.data name dig)
+          let cbs := match o with | .cbs l => l | _ => []
+          -- SPEC
+          let (sp2, f2) := if isCrash got then (sp1, []) else specCb sp1 gotCb (some (name, dig)) none
+          let missing := sp1.ints.filter fun si =>
+            !si.resolved && Spec.satisfies si.i name dig && !(gotCb.any fun e => e.startsWith (si.label ++ ":"))
+          let f3 : List SpecFail := if isCrash got then [] else missing.map fun si =>
+            ⟨"resolves-all", (if si.i.node == name then "same-name" else "prefix"),
+             s!"Data {nameT} satisfies pending {si.label} ({Name.toText si.i.final} cbp={si.i.cbp}) but its callback was not invoked"⟩
+          let pend := sp1.ints.filter (!·.resolved)
+          let nt := pend.any fun a => pend.any fun b => a.label != b.label && nested a.i.node b.i.node && nested a.i.node name
+          mk { d1 with m := m2, sp := sp2 } "ok" cbs (f2 ++ f3)
+            ["data", if cbs.isEmpty then "data-unsolicited" else if cbs.length ≥ 2 then "data-multi" else "data-one"] nt
+        | _, _ => bad d
+      | ["nack", nameT] =>
+        match Name.ofText nameT with
+        | some name =>
+          let (m2, o) := stepM d.pinned m1 (.nack name)
+          let cbs := match o with | .cbs l => l | _ => []
+          let (sp2, f2) := if isCrash got then (sp1, []) else specCb sp1 gotCb none (some name)
+          let pend := sp1.ints.filter (!·.resolved)
+          let nt := pend.any fun a => pend.any fun b => a.label != b.label && nested a.i.node b.i.node && nested a.i.node name
+          mk { d1 with m := m2, sp := sp2 } "ok" cbs f2 ["nack", if cbs.isEmpty then "nack-unknown" else "nack-hit"] nt
+        | none => bad d
+      | ["attach", hidT, prefT] =>
+        match Name.ofText prefT, hidT.toNat? with
+        | some p, some hid =>
+          let (m2, o) := stepM d.pinned m1 (.attach p hid)
+          let res := match o with | .ok => "ok" | _ => "dup"
+          let has := sp1.fib.any (·.1 == p)
+          let f2 : List SpecFail := if gotRes == "dup" && !has then
+              [⟨"handler-registration", "attach-refused", s!"AttachHandler({prefT}) refused although no handler is attached there"⟩] else []
+          let fib2 := if gotRes == "ok" then (sp1.fib.filter (·.1 != p)) ++ [(p, hid)] else sp1.fib
+          mk { d1 with m := m2, sp := { sp1 with fib := fib2 } } res [] f2 [if res == "ok" then "attach" else "attach-dup"]
+        | _, _ => bad d
+      | ["detach", prefT] =>
+        match Name.ofText prefT with
+        | some p =>
+          let (m2, o) := stepM d.pinned m1 (.detach p)
+          let res := match o with | .ok => "ok" | _ => "err"
+          let has := sp1.fib.any (·.1 == p)
+          let f2 : List SpecFail := if gotRes == "err" && has then
+              [⟨"handler-registration", "detach-failed", s!"DetachHandler({prefT}) failed although a handler is attached there"⟩] else []
+          let fib2 := if gotRes == "ok" then sp1.fib.filter (·.1 != p) else sp1.fib
+          mk { d1 with m := m2, sp := { sp1 with fib := fib2 } } res [] f2 [if res == "ok" then "detach" else "detach-err"]
+        | none => bad d
+      | ["interest", rlabel, nameT, lifeT, _tok] =>
+        match Name.ofText nameT, optNat lifeT with
+        | some name, some lifeMs =>
+          let life := lifeMs.map (· * 1000)
+          let (m2, o) := stepM d.pinned m1 (.interest name life)
+          let (res, rxl2) := match o with
+            | .handled (some hid) dl r => (s!"h{hid}:{dl}", d1.rxl ++ [(rlabel, r)])
+            | _ => ("none", d1.rxl)
+          -- SPEC: the handler must be the one at the longest attached prefix, with the right deadline
+          let want := Spec.lpm sp1.fib name
+          let dl := t + life.getD defaultLife
+          let wantTxt := match want with | some (_, hid) => s!"h{hid}:{dl}" | none => "none"
+          let f2 : List SpecFail := if isCrash got || gotRes == wantTxt then [] else
+            [⟨"handler-lpm", (if gotRes == "none" then "no-handler" else if want.isNone then "spurious" else "wrong-handler"),
+              s!"Interest {nameT}: handler/deadline {gotRes}, the longest attached prefix gives {wantTxt}"⟩]
+          let rx2 := if gotRes != "none" then sp1.rx ++ [(rlabel, dl)] else sp1.rx
+          mk { d1 with m := m2, rxl := rxl2, sp := { sp1 with rx := rx2 } } res [] f2
+            [if res == "none" then "interest-nohandler" else "interest-handled",
+             if lifeMs.isNone then "interest-default-life" else "interest-life"]
+            (sp1.fib.length ≥ 2 && want.isSome)
+        | _, _ => bad d
+      | ["reply", rlabel] =>
+        match d1.rxl.find? (·.1 == rlabel) with
+        | none =>
+          -- the model has no such Interest (never handled): the harness must say skip
+          let f2 : List SpecFail := match sp1.rx.find? (·.1 == rlabel) with
+            | some (_, dl) => if gotRes == "sent" && !Spec.replyOk dl t then
+                [⟨"reply-deadline", "late", s!"reply for {rlabel} transmitted at {t}, after its deadline {dl}"⟩] else []
+            | none => []
+          mk d1 "skip" [] f2 ["reply-skip"]
+        | some (_, r) =>
+          let (m2, o) := stepM d.pinned m1 (.reply r)
+          let res := match o with | .sent => "sent" | .late => "late" | _ => "skip"
+          let f2 : List SpecFail := match sp1.rx.find? (·.1 == rlabel) with
+            | some (_, dl) => if gotRes == "sent" && !Spec.replyOk dl t then
+                [⟨"reply-deadline", "late", s!"reply for {rlabel} transmitted at {t}, after its deadline {dl}"⟩] else []
+            | none => []
+          mk { d1 with m := m2 } res [] f2 [if res == "sent" then "reply-sent" else "reply-late"]
+      | ["tick"] => mk d1 "ok" [] [] ["tick"]
+      | ["end"] =>
+        -- SPEC: exactly once — every Interest whose lifetime ended more than a second ago is resolved
+        let late := sp1.ints.filter fun si => !si.resolved && si.i.t + si.i.life + 1000000 ≤ t
+        let f2 : List SpecFail := if isCrash got then [] else late.map fun si =>
+          ⟨"exactly-once", "never-resolved", s!"{si.label} ({Name.toText si.i.final}) expressed at {si.i.t} lifetime {si.i.life}: no callback by {t}"⟩
+        mk d1 "ok" [] f2 ["end"]
+      | _ => bad d
+
+def main : IO Unit := do
+  let pinned := (← IO.getEnv "VERIF_C20_PINNED").isSome
+  Ndn.Driver.run ({ pinned := pinned } : DSt) stepC20
